@@ -40,23 +40,24 @@ type Req struct {
 
 // RetryOpts are the client options of a retry-family scenario.
 type RetryOpts struct {
-	DeliverOnRel  bool   `json:"deliverOnRel,omitempty"`
-	AlwaysResub   bool   `json:"alwaysResub,omitempty"`
-	RespTimeoutMs int    `json:"respTimeoutMs,omitempty"`
-	ConnTimeoutMs int    `json:"connTimeoutMs,omitempty"`
-	PingMs        int    `json:"pingMs,omitempty"`
-	ReconnBaseMs  int    `json:"reconnBaseMs,omitempty"`
-	ReconnMaxMs   int    `json:"reconnMaxMs,omitempty"`
-	QuietMs       int    `json:"quietMs,omitempty"`
-	DeadlineMs    int    `json:"deadlineMs,omitempty"`
-	CleanSession  bool   `json:"cleanSession,omitempty"`
-	NoDisconnect  bool   `json:"noDisconnect,omitempty"`
-	DirectQoS0    bool   `json:"directQoS0,omitempty"`
-	HookEvents    bool   `json:"hookEvents,omitempty"`
-	SampleAfterMs int    `json:"sampleAfterMs,omitempty"`
-	DisconnectAt  string `json:"disconnectAt,omitempty"`
-	Hammer        bool   `json:"hammer,omitempty"`        // background goroutines keep calling Ping, Stats, Client, Handle (race-detector runs)
-	NoReestablish bool   `json:"noReestablish,omitempty"` // the scenario ends without a healthy connection on purpose
+	DeliverOnRel        bool   `json:"deliverOnRel,omitempty"`
+	AlwaysResub         bool   `json:"alwaysResub,omitempty"`
+	RespTimeoutMs       int    `json:"respTimeoutMs,omitempty"`
+	ConnTimeoutMs       int    `json:"connTimeoutMs,omitempty"`
+	PingMs              int    `json:"pingMs,omitempty"`
+	ReconnBaseMs        int    `json:"reconnBaseMs,omitempty"`
+	ReconnMaxMs         int    `json:"reconnMaxMs,omitempty"`
+	QuietMs             int    `json:"quietMs,omitempty"`
+	DeadlineMs          int    `json:"deadlineMs,omitempty"`
+	CleanSession        bool   `json:"cleanSession,omitempty"`
+	NoDisconnect        bool   `json:"noDisconnect,omitempty"`
+	DirectQoS0          bool   `json:"directQoS0,omitempty"`
+	HookEvents          bool   `json:"hookEvents,omitempty"`
+	SampleAfterMs       int    `json:"sampleAfterMs,omitempty"`
+	DisconnectAt        string `json:"disconnectAt,omitempty"`
+	Hammer              bool   `json:"hammer,omitempty"`              // background goroutines keep calling Ping, Stats, Client, Handle (race-detector runs)
+	EpilogueLoseSession bool   `json:"epilogueLoseSession,omitempty"` // after quiescence: broker restart (peer close + session lost), settle again
+	NoReestablish       bool   `json:"noReestablish,omitempty"`       // the scenario ends without a healthy connection on purpose
 }
 
 // RetryScenario is the input of the retry family.
@@ -408,6 +409,15 @@ func runRetry(sc *RetryScenario) *RetryResult {
 	drained := false
 	if !disconnected && !sc.Opts.NoReestablish {
 		drained = waitQuiet()
+		if drained && sc.Opts.EpilogueLoseSession {
+			// book-keeping errors often show only when the session has to be rebuilt once more
+			w.LoseSessionNext()
+			if cur := w.Current(); cur != nil {
+				cur.PeerClose()
+			}
+			time.Sleep(5 * time.Millisecond)
+			drained = waitQuiet()
+		}
 	} else {
 		time.Sleep(quiet)
 	}
